@@ -17,6 +17,7 @@ import RosuModel.Props.C04DecodedTiming
 import RosuModel.Props.C04DecodedIeee
 import RosuModel.Props.C12Ieee
 import RosuModel.Lemmas.FloatDivAnti
+import RosuModel.Model.Cmds.Curve
 set_option linter.unusedSectionVars false
 namespace Rosu.C04
 open Rosu Scalar Encode EncodeLines RtTiming DecodedObj
@@ -125,5 +126,61 @@ theorem timing_lines_accepted_decoded_ieee (bs : List UInt8)
   timing_lines_accepted_decoded_float svLaws_float bs st m h1 h2 hct t h
 
 end
+
+/-! ### non-vacuity on the REAL instances (the driver's `Trig Float32` of Model/Cmds/Curve.lean): a decoded file, evaluated
+by the kernel with IEEE arithmetic and the model of Rust's `FromStr` / `Display` -/
+
+set_option maxRecDepth 100000
+
+/-- an osu! file: a timing line at a negative fractional time, an inherited line with velocity `100 / 33.3`, kiai and a
+custom bank, an inherited line with a NaN beat length (accepted: velocity `1`, ticks off), and a circle. -/
+def ieeeLines : List Str :=
+  [str "osu file format v14", str "", str "[General]", str "Mode: 0", str "[TimingPoints]", str "-28.5,333.33,4,2,0,100,1,0",
+   str "1000.25,-33.3,4,1,3,70,0,1", str "2000,nan,4,1,0,50,0,0", str "[HitObjects]",
+   str "256,192,1500.5,1,0,0:0:0:0:"]
+
+def ieeeState : BeatmapState Float Float32 := frame beatmapDecoder ieeeLines
+def ieeeMap : Beatmap Float Float32 :=
+  match ieeeState.finish with | .ok m => m | .error _ => noObjectsMap ieeeState
+
+theorem ieee_decodes : decodeBytes (beatmapDecoder : LineDecoder (BeatmapState Float Float32))
+    (utf8Encode (unlines ieeeLines)) = .ok ieeeState := by
+  rw [RtFile.decodeBytes_utf8_text _ _ (by decide), lines_of_unlines _ (by decide)]
+  rfl
+
+theorem ieee_finishes : ieeeState.finish = .ok ieeeMap := by
+  have hok : ieeeState.finish.toOption.isSome = true := by decide +kernel
+  unfold ieeeMap
+  cases h : ieeeState.finish with
+  | error e => rw [h] at hok; cases hok
+  | ok m => rfl
+
+/-- the residual holds of the sample (kernel evaluation of the object loop of `collect_samples` on doubles). -/
+theorem ieee_collectedTimes : CollectedTimesInLimit ieeeMap := by
+  have key : (match collectAll ieeeMap ieeeMap.hitObjects [] with
+      | .ok pts => pts.all (fun p => Scalar.lt p.time (-(maxParseValue : Float)) == false &&
+          Scalar.lt (maxParseValue : Float) p.time == false && Scalar.isNaN p.time == false) | .error _ => true) = true := by
+    decide +kernel
+  intro pts hp p hpm
+  rw [hp] at key
+  have := List.all_eq_true.mp key p hpm
+  simp only [Bool.and_eq_true, beq_iff_eq] at this
+  exact ⟨this.1.1, this.1.2, this.2⟩
+
+/-- the block the encoder writes for it (kernel evaluation, Rust's `Display` for `f64` included): the velocity
+`100 / 33.3 = 3.003003003003003` is written as `−100 / v = −33.3`, the NaN line as `−100`. -/
+theorem ieee_timing_text :
+    (match encodeTimingPoints ieeeMap with
+      | .ok t => decide (t = unlines [str "[TimingPoints]", str "-28.5,333.33,4,2,0,100,1,0", str "1000.25,-33.3,4,2,3,70,0,1",
+          str "2000,-100,4,2,0,50,0,0"])
+      | .error _ => false) = true := by decide +kernel
+
+/-- **the theorems apply**, no hypothesis left open: the decoded `f64` map is `RepTimingMap` and every line of its block is
+accepted by `parse_timing_points` in any state. -/
+theorem ieee_repTimingMap : RepTimingMap IeeeRep64 ieeeMap :=
+  decoded_repTimingMap_partial_ieee _ _ _ ieee_decodes ieee_finishes ieee_collectedTimes
+
+example (t : Str) (h : encodeTimingPoints ieeeMap = .ok t) :=
+  timing_lines_accepted_decoded_ieee _ _ _ ieee_decodes ieee_finishes ieee_collectedTimes t h
 
 end Rosu.C04
